@@ -116,8 +116,28 @@ def _run(cmd, text, timeout):
     return first, time.time() - t0, out
 
 
+RACE = False       # set by the driver for string-heavy specs: z3 and cvc5 run side by side, the first definite answer wins
+
+
 def solve_one(smt2, budget, use_cvc5=True):
     """-> dict(result, backend, seconds, detail)"""
+    if RACE and use_cvc5 and CVC5_BIN:
+        t0 = time.time()
+        with ThreadPoolExecutor(max_workers=2) as ex2:
+            fz = ex2.submit(_run, [Z3_BIN, "-in", "-T:%d" % budget], smt2, budget)
+            fc = ex2.submit(_run, [CVC5_BIN, "--lang=smt2", "--strings-exp", "--tlimit=%d" % (budget * 1000)], "(set-logic ALL)\n" + smt2, budget)
+            pending = {fz: "z3", fc: "cvc5"}
+            detail = []
+            import concurrent.futures as _cf
+            while pending:
+                done, _ = _cf.wait(list(pending), return_when=_cf.FIRST_COMPLETED)
+                for f in done:
+                    nm = pending.pop(f)
+                    r_, dt_, _o = f.result()
+                    if r_ in ("sat", "unsat"):
+                        return {"result": r_, "backend": nm, "seconds": time.time() - t0}
+                    detail.append("%s: %s" % (nm, r_))
+        return {"result": "unknown", "backend": "-", "seconds": time.time() - t0, "detail": " / ".join(detail)}
     r, dt, out = _run([Z3_BIN, "-in", "-T:%d" % budget], smt2, budget)
     if r in ("sat", "unsat"):
         return {"result": r, "backend": "z3", "seconds": dt}
